@@ -115,7 +115,9 @@ int main(int argc, char **argv) {
   for (int i = 1; i < argc; i++) if (!strcmp(argv[i], "--envprobe")) { printf("%s\n", jwt_get_crypto_ops()); return 0; }
   Args a = parse_args(argc, argv);
   POOL = standard_pool();
+  static KeySpec rsa2050 = load_fixture("rsa_2050");   // modulus length not a multiple of 8 bits
   for (const char *n : {"oct32", "oct64", "oct77", "rsa_2048", "ec_p256", "ec_p384", "ec_p521", "ed25519", "ed448"}) KEYS.push_back(&POOL.get(n));
+  KEYS.push_back(&rsa2050);
   if (a.thorough()) for (const char *n : {"rsa_3072", "rsa_4096", "oct48"}) KEYS.push_back(&POOL.get(n));
   std::vector<std::pair<int, int>> cells;  // common matrix: everything but ES256K / secp256k1
   for (size_t ki = 0; ki < KEYS.size(); ki++) for (int ai = 0; ai < NALGS; ai++) if (strength_ok(*KEYS[ki], ALGS[ai].alg) && ALGS[ai].alg != JWT_ALG_ES256K) cells.push_back({(int)ki, ai});
